@@ -361,6 +361,7 @@ class WritableStream(io.RawIOBase):
         self._exp_header = None
         self._exp_data = b""
         self._done = False
+        self._failed = None
 
         if size is None or size < 1 or size > 4 or force_segment:
             # Initiate segmented download
@@ -390,6 +391,19 @@ class WritableStream(io.RawIOBase):
         Write the given bytes-like object, b, to the SDO server, and return the
         number of bytes written. This will be at most 7 bytes.
         """
+        if self._failed is not None:
+            # The transfer has failed, data still buffered by the caller's
+            # file object cannot be sent any more
+            raise self._failed
+        try:
+            return self._write(b)
+        except SdoError as e:
+            # The transfer is over, close() must not send a closing segment
+            self._done = True
+            self._failed = e
+            raise
+
+    def _write(self, b):
         if self._done:
             raise RuntimeError("All expected data has already been transmitted")
         if self._exp_header is not None:
@@ -427,12 +441,7 @@ class WritableStream(io.RawIOBase):
             command |= (7 - bytes_sent) << 1
             request[0] = command
             request[1:bytes_sent + 1] = b[0:bytes_sent]
-            try:
-                response = self.sdo_client.request_response(request)
-            except SdoError:
-                # The transfer is over, close() must not send a closing segment
-                self._done = True
-                raise
+            response = self.sdo_client.request_response(request)
             res_command, = struct.unpack("B", response[0:1])
             if res_command & 0xE0 != RESPONSE_SEGMENT_DOWNLOAD:
                 raise SdoCommunicationError(
